@@ -68,6 +68,20 @@ void pair_case(size_t n, std::pair<size_t, size_t> wa, std::vector<std::pair<siz
       }
     }
   }
+  // the same spline object in both slots, the two operators built from different scalars and factor splines (operators of one C++
+  // type that differ in state only)
+  {
+    Real c2 = Real::var("c2");
+    if (EA::divides_by_c || EB::divides_by_c) En.assume(sym::ne(c2, Real(0)));
+    auto v = mkspline<FO>(grid, 0, n, "v"), w = mkspline<FO>(grid, n >= 3 ? 1 : 0, n, "w");
+    if constexpr (oa == ob) {
+      Real lib = BilinearForm{EA::make(c, v), EB::make(c2, w)}(a, a);
+      Real ref(0);
+      for (size_t gi = wa.first; gi + 1 < wa.second; gi++)
+        ref = ref + pintegral(pmul(EA::ref(piece(a, g, gi), c, v, g, gi), EB::ref(piece(a, g, gi), c2, w, g, gi)), g[gi], g[gi + 1]);
+      En.prove("same-object-both-slots/integral", sym::eq(lib, ref));
+    }
+  }
   // operands with a history: a zero object that has been queried and used in a form, then re-assigned (lower order, copy, +=)
   {
     auto b = mkspline<ob>(grid, 0, n, "b");
@@ -139,9 +153,19 @@ template <class EA, class EB, size_t... I>
 void add_pair_hi(std::vector<Case> &cases, std::index_sequence<I...>) {
   (add_pair_one<EA, EB, HO[I / HO.size()], HO[I % HO.size()]>(cases), ...);
 }
+template <class EA, class EB, size_t oa, size_t ob>
+void add_pair_vhi(std::vector<Case> &cases) {
+  cases.push_back({std::string("bilin-very-high/") + EA::name + "," + EB::name + "/o" + std::to_string(oa) + "x" + std::to_string(ob) + "/n2/wa0-2", [=] { pair_case<EA, EB, oa, ob>(2, {0, 2}); }});
+}
 template <class EA, class EB>
 void add_pair(std::vector<Case> &cases) {
   add_pair_hi<EA, EB>(cases, std::make_index_sequence<HO.size() * HO.size()>{});
+  // kernels with 22..35 coefficients of the product polynomial
+  add_pair_vhi<EA, EB, 11, 11>(cases);
+  add_pair_vhi<EA, EB, 12, 12>(cases);
+  add_pair_vhi<EA, EB, 13, 11>(cases);
+  add_pair_vhi<EA, EB, 9, 16>(cases);
+  add_pair_vhi<EA, EB, 16, 16>(cases);
 }
 #else
 template <class EA, class EB>
